@@ -32,6 +32,14 @@ CLAIMED = {
    text="Category boundaries of the class numbering are derived from the rules by TLC (MCPoker); hand_type() of concrete hands for every key - hence every one of the 4,824 reachable classes including the first and last of each category - is validated by TLC against the category of Eval7(cards), and hand_type() is compared on all 133,784,560 sets with the TLC-exported categories. Exhaustive.",
    note="Trusted: Poker.tla, harness projection (category compared through its Debug name), TLC.",
    technique="TLA+ rules-of-poker spec; TLC trace validation over all keys; exhaustive sweep", ref="DESIGN.md 5/C07"),
+ "C11": dict(
+   text="Design level: TLC checks on the specification itself (FlopEnum legality + Eval7 + Winners over all boards from the eight treys and deuces) that per-player tallies of k-way wins are invariant under all 24 suit permutations and covariant under seat permutations. Binding: for random, flush-heavy and chop-prone base configurations the complete run and its images under suit and seat permutations are executed on the real evaluator; TLC checks that each image configuration is the image, that each showdown's winner flags equal winner_len >= 1 (shares add up to one pot), that the README-loop tallies equal the pattern counts, and that image tallies are the permuted base tallies.",
+   note="Trusted: harness projection and its README-style integer loop (cross-checked against the win patterns by TLC), TLC. Bases are sampled; 8 of 24 suit permutations per base in quick, all 24 in thorough.",
+   technique="TLA+ symmetry theorem model-checked with TLC; trace validation of paired complete runs", ref="DESIGN.md 5/C11"),
+ "C15": dict(
+   text="TLC enumerates every interleaving of next() calls over 3 live iterators x 3 calls (1,680 schedules; 34,650 with 4 calls in thorough) from Workers.tla; each schedule, plus random schedules over 2-6 iterators, is replayed on one thread against live real iterators and compared by TLC with each evaluator's solo sequence, which is recorded in a child process of its own. 16 concurrent threads each drain their own evaluator (inputs shared through Arc) and are compared the same way. Send + Sync of every public type is asserted at compile time.",
+   note="Trusted: harness projection, TLC, the OS scheduler for the thread runs (not controlled). Preemption inside a call is not modelled.",
+   technique="TLA+ Workers spec: TLC-enumerated interleavings replayed on the implementation; trace validation against solo runs", ref="DESIGN.md 5/C15"),
  "C13": dict(
    text="Exhaustive: the quantifier of this property is finite (52 cards, 13 ranks, 4 suits, 16,513 short ASCII strings, all ordered pairs, all ranges) and every element is recorded from the real library and validated by TLC against the tables of Cards.tla in the quick tier.",
    note="Trusted: the harness projection (card id = position in a table built from enum variants), TLC, the JSON reader of the CommunityModules. Reversed range endpoints are read as outside the statement.",
